@@ -32,6 +32,17 @@ def candidates(case):
     out = []
     spec = case['spec']
     mc = spec.get('mc') or {}
+    # 0. a shorter build history
+    prior = spec.get('_prior') or []
+    if prior:
+        c = copy.deepcopy(case)
+        del c['spec']['_prior']
+        out.append(c)
+        if len(prior) > 1:
+            for i in range(len(prior)):
+                c = copy.deepcopy(case)
+                del c['spec']['_prior'][i]
+                out.append(c)
     enc = _enc_elem(case['sm'])
     n_ports = len(enc['ports']) if enc else 0
     # 1. drop a port
